@@ -141,7 +141,7 @@ func c12PlantDecoy(rel string) func() {
 // names found in the project directory (and its two ancestors), every one a symbolic link to a decoy directory.
 func c12DecoyCwd(projDir string) func() {
 	noop := func() {}
-	base, err := os.MkdirTemp("", "verif-C12-cwd-")
+	base, err := os.MkdirTemp(os.Getenv("VERIF_SCRATCH"), "verif-C12-cwd-") // inside the run's scratch directory when there is one: removed with it
 	if err != nil {
 		return noop
 	}
